@@ -25,7 +25,7 @@ func fuzzText(f *testing.F, kind string) {
 			c.Target = "[1,2,3]"
 		}
 		err := guarded(checkC13Text, c, r)
-		if err != nil {
+		if err != nil && !r.Suppress(err) {
 			if _, ok := err.(*rec.Violation); ok {
 				r.WriteFail(c, err)
 			}
